@@ -293,6 +293,28 @@ def run_error(env, sec, kind, state, res):
         args = ['build', out, '--' + sec, '', '--empty-' + sec]
     elif kind == 'dirpath':
         args = ['build', out, '--' + sec, env.d]
+    elif kind.startswith('unloadable-'):
+        # the source exists and has a usable extension, but does not load as a cart; another (good) section source is
+        # named before or after it, so that a partial build would show
+        what = kind.split('-')[1]
+        if what == 'lua':
+            bad = os.path.join(env.d, 'wip.p8')
+            open(bad, 'wb').write(ref_p8(env.f['p8'], b'function _init()\n if x then\n  y=1\n'))
+        elif what == 'header':
+            bad = os.path.join(env.d, 'hdr.p8')
+            open(bad, 'wb').write(b'pico-8 cartridge\nversion 8\n__lua__\nx=1\n')
+        elif what == 'notpng':
+            bad = os.path.join(env.d, 'pic.p8.png')
+            open(bad, 'wb').write(b'GIF89a' + bytes(64))
+        else:
+            bad = os.path.join(env.d, 'inc.p8')
+            open(bad, 'wb').write(b'pico-8 cartridge // http://www.pico-8.com\nversion 8\n__lua__\n#include gone.lua\n')
+        other = [s_ for s_ in SECTIONS if s_ != sec][(len(sec) + len(state)) % 5]
+        args = ['build', out, '--' + sec, bad]
+        if kind.endswith('-first'):
+            args += ['--' + other, env.src_p8]
+        else:
+            args[2:2] = ['--' + other, env.src_p8]
     elif kind == 'outext':
         # OUT itself has an unusable name: nothing may be created
         out = os.path.join(env.d, 'out_' + sec + '.txt')
@@ -405,7 +427,9 @@ def run_shard(item):
         elif item[0] == 'errors':
             for state in OUT_STATES:
                 for sec in SECTIONS:
-                    for kind in ('both', 'missing', 'wrongext', 'luaext', 'outext', 'emptypath', 'emptypath+empty', 'dirpath'):
+                    for kind in ('both', 'missing', 'wrongext', 'luaext', 'outext', 'emptypath', 'emptypath+empty', 'dirpath',
+                                 'unloadable-lua-first', 'unloadable-lua-last', 'unloadable-header-first', 'unloadable-notpng-last',
+                                 'unloadable-include-first'):
                         run_error(env, sec, kind, state, res)
             res.sample({'error': 'both --gfx and --empty-gfx', 'out': 'existing-p8'})
     finally:
